@@ -86,15 +86,29 @@ def fpconst(v):
     return z3.FPVal(v, F64)
 
 
+def module_constants(rel):
+    """Module-level `NAME = <constant arithmetic>` assignments."""
+    out = {}
+    for node in ast.parse(source(rel)).body:
+        if isinstance(node, ast.Assign) and len(node.targets) == 1 and \
+                isinstance(node.targets[0], ast.Name):
+            v = const_value(node.value)
+            if v is not None:
+                out[node.targets[0].id] = v
+    return out
+
+
 class Translator:
-    def __init__(self, env):
+    def __init__(self, env, consts=None):
         self.env = env          # ast.unparse(text) -> Float64 term
-        self.used = []
+        self.consts = consts or {}
 
     def expr(self, node):
         key = ast.unparse(node)
         if key in self.env:
             return self.env[key]
+        if isinstance(node, ast.Name) and node.id in self.consts:
+            return fpconst(self.consts[node.id])
         c = const_value(node)
         if c is not None:
             return fpconst(c)
@@ -210,6 +224,65 @@ def can_hold_range(type_name):
             raise Unsupported('can_hold branch for %s is not a single return'
                               % type_name)
     raise Unsupported('can_hold branch for %s not found' % type_name)
+
+
+F32 = z3.Float32()
+
+
+def pack_f_succeeds(v):
+    """Model of struct.pack('>f', v) for a finite double v: CPython
+    (PyFloat_Pack4) rounds to binary32, nearest-even, and raises
+    OverflowError iff the rounded value is infinite."""
+    return z3.Not(z3.fpIsInf(z3.fpToFP(RNE, v, F32)))
+
+
+def single_can_hold(v):
+    """qbee/expr.py Type.can_hold, SINGLE branch, as a z3 condition on the
+    Float64 term v.  Two shapes are translated: try: struct.pack('>f',
+    value) / except OverflowError: return False / else: return True, and a
+    single `return <comparison>`."""
+    fn = find_function(ast.parse(source('qbee/expr.py')), 'can_hold')
+    want = 'self._type == BuiltinType.SINGLE'
+    for node in ast.walk(fn):
+        if isinstance(node, ast.If) and ast.unparse(node.test) == want:
+            body = [b for b in node.body
+                    if not isinstance(b, (ast.Import, ast.ImportFrom))]
+            text = '; '.join(ast.unparse(b).replace('\n', ' ') for b in body)
+            if len(body) == 1 and isinstance(body[0], ast.Return):
+                tr = Translator({'value': v}, module_constants('qbee/expr.py'))
+                return tr.cond(body[0].value), text
+            if len(body) == 1 and isinstance(body[0], ast.Try):
+                t = body[0]
+                if [ast.unparse(x) for x in t.body] == \
+                        ["struct.pack('>f', value)"] and \
+                        len(t.handlers) == 1 and \
+                        ast.unparse(t.handlers[0].type) == 'OverflowError' and \
+                        [ast.unparse(x) for x in t.handlers[0].body] == \
+                        ['return False'] and \
+                        [ast.unparse(x) for x in t.orelse] == \
+                        ['return True'] and not t.finalbody:
+                    return pack_f_succeeds(v), text
+            raise Unsupported('SINGLE branch of can_hold: ' + text)
+    raise Unsupported('SINGLE branch of can_hold not found')
+
+
+def decide_single():
+    """for all finite doubles v: can_hold_SINGLE(v) <=> v rounds to a finite
+    binary32 (so Type.coerce, which packs with struct, cannot raise, and
+    nothing that fits is rejected)."""
+    v = z3.FP('v', F64)
+    acc, text = single_can_hold(v)
+    s = z3.Solver()
+    s.set('timeout', 120000)
+    s.add(z3.Not(z3.fpIsNaN(v)), z3.Not(z3.fpIsInf(v)))
+    s.add(acc != pack_f_succeeds(v))
+    t0 = time.time()
+    r = str(s.check())
+    d = {'lemma': 'single-accepted-iff-rounds-to-finite-binary32',
+         'result': r, 'seconds': round(time.time() - t0, 2), 'source': text}
+    if r == 'sat':
+        d['model'] = fp_to_float(s.model()[v])
+    return d
 
 
 RANGES = {'INTEGER': (-32768, 32767), 'LONG': (-2 ** 31, 2 ** 31 - 1)}
